@@ -213,6 +213,13 @@ func ruleC01_3(c *Ctx) {
 			if len(lf.Conds) > 0 {
 				lc += ":" + leafLabel(lf.Conds)
 			}
+			if k.name == "SetCReg" && allFormsRefused(lf.Conds) {
+				// the path on which none of the five colour forms accepts the colour: C09.3 (evaluated under this
+				// property too) shows that every constructible colour is accepted by some form, so whatever stands
+				// there - a panic today - is never executed
+				R.OK(lc, pos, "no colour form accepts: unreachable by C09.3")
+				continue
+			}
 			if base.Key() != "$init:param:e."+fmt.Sprint(fieldIndex(m.T, "buf")) || len(items) == 0 || items[0].Kind != "byte" {
 				R.Bad(lc, pos, "appends an opcode byte to the existing buffer", describeItems(items)+" [base "+shortKey(base)+"]")
 				continue
@@ -327,6 +334,31 @@ func ruleC01_3(c *Ctx) {
 		}
 	}
 	R.Exhaustive = true
+}
+
+// allFormsRefused: the path condition negates the ok result of every one of the five colour encoders.
+func allFormsRefused(conds []*sym.Term) bool {
+	refused := map[string]bool{}
+	for _, cd := range conds {
+		if cd.Op != "not" || len(cd.Args) != 1 {
+			continue
+		}
+		x := cd.Args[0]
+		if strings.HasPrefix(x.Key(), "extract:1(call:Encode") {
+			sym.Walk(x, func(t *sym.Term) bool {
+				if t.Op == "call" && strings.HasPrefix(t.Name, "Encode") {
+					refused[t.Name] = true
+				}
+				return true
+			})
+		}
+	}
+	for _, f := range []string{"Encode1", "Encode2", "Encode3Direct", "Encode4", "Encode3Indirect"} {
+		if !refused[f] {
+			return false
+		}
+	}
+	return true
 }
 
 func leafLabel(conds []*sym.Term) string {
